@@ -28,8 +28,12 @@ FIELDSETS = [["temp"], ["temp", "density"], ["temp", "density", "Y(H2)"], ["Y(H2
              ["Y(CH2(S))", "Y(CH2)", "Y(C(S))", "temp"], ["density", "rho", "temp", "Rho", "Y(H2)", "Temp"], ["phi", "x_velocity", "abc", "Y(O2)"]]
 
 
+SPECIES21 = ["H2", "H", "O", "O2", "OH", "H2O", "HO2", "CH2", "CH2(S)", "CH3", "CH4", "CO", "CO2", "HCO", "CH2O", "CH3O",
+             "C2H4", "C2H5", "C2H6", "N2", "AR"]
+
+
 def bounds(tier):
-    return {"fieldsets": len(FIELDSETS), "menu_modes": ["default", "min_max", "finest_lv", "min_max+finest_lv"],
+    return {"fieldsets": len(FIELDSETS), "terminal_widths": ["unset", 200, 48, 20], "menu_modes": ["default", "min_max", "finest_lv", "min_max+finest_lv"],
             "histories": "all ordered pairs of menu calls over the case's two plotfiles x modes"}
 
 
@@ -66,7 +70,12 @@ def cases(tier, seed):
                 ({"ndims": 2, "domain": [4, 6], "levels": [scope.named_meshes(2)[1]["levels"][0]]}, ["density"]),
                 (scope.named_meshes(3)[2], ["temp", "density", "Z"]),                   # 3 boxes x 3 fields on levels 0 and 1
                 (scope.named_meshes(2)[2], ["volume fraction", "x velocity", "temp"]),
-                (scope.named_meshes(3)[1], ["mass fraction of H2", "temp"])]
+                (scope.named_meshes(3)[1], ["mass fraction of H2", "temp"]),
+                # more species than one row of the species table holds (every reacting-flow plotfile): the 21 species of drm19
+                (scope.named_meshes(3)[1], ["temp", "density"] + ["Y(%s)" % sp for sp in SPECIES21] + ["I_R(CH4)", "I_R(CH2(S))"]),
+                # a very wide plotfile: the field names alone are more than 8 KiB of the Header (650 species, mass fractions and
+                # reaction rates)
+                (scope.named_meshes(2)[0], ["temp", "density"] + ["Y(S%03d)" % i for i in range(650)] + ["I_R(S%03d)" % i for i in range(650)] + ["HeatRelease", "my_tracer"])]
     for si, (mesh, fs) in enumerate(specials):
         nd = mesh["ndims"]
         d = dict(mesh)
@@ -343,6 +352,24 @@ def run_case(case, workdir):
                 check_default(rec, sub, d["fields"], text, pristine)
             else:
                 check_minmax(rec, sub, d["fields"], text, pp, finest=fl)
+    # ---- the width of the terminal is part of the environment (COLUMNS): whatever it is, every field and species is listed once
+    for cols in ("200", "48", "20"):
+        reset()
+        oldc = os.environ.get("COLUMNS")
+        os.environ["COLUMNS"] = cols
+        try:
+            st, val, text = run_menu(path, False, False)
+        finally:
+            if oldc is None:
+                os.environ.pop("COLUMNS", None)
+            else:
+                os.environ["COLUMNS"] = oldc
+        sub = {"tool": "menu", "min_max": False, "finest_lv": False, "COLUMNS": cols}
+        rec.exe([dh, sub])
+        if st == "exc":
+            rec.fail("menu_raised", sub, exc_text(val))
+        else:
+            check_default(rec, sub, desc["fields"], text, pristine)
     # ---- every combination of the five options on the first plotfile (the printed parts are cumulative)
     labs = [category(f, pristine) or f for f in desc["fields"]]
     for hv in (None, [labs[0], "nope_zz"]):
